@@ -187,13 +187,14 @@ def r5(ctx: Ctx) -> None:
     loops = [st for st in c if st[0] == "for"]
     ctx.require(len(loops) == 2, "griddify: two cut loops expected")
     for lp, cuts, pred, splitm, axis in [(loops[0], xs, "x_cuttable", "split_horizontal", "x"), (loops[1], ys, "y_cuttable", "split_vertical", "y")]:
-        want_iter = ("c", ("g", "range"), (k_num(1), (to_poly(("c", ("g", "len"), (cuts,), ())) - Poly.const(1)).to_s()), ())
+        # all interior boundaries: the elements of cuts[1:-1] (the index spelling range(1, len(cuts) - 1) / cuts[i] has this form too)
+        from framelint.canon import K_NONE
+        want_iter = ("s", cuts, ("slice", k_num(1), k_num(-1), K_NONE))
         ctx.site(fg.where, f"{axis}-cut loop ranges over all interior {axis} boundaries", iter=show(lp[2])[-60:])
         if lp[2] != want_iter:
-            ctx.report(fg.where, f"cut-loop-range {axis}", f"the {axis}-cut loop does not range over range(1, len({axis} cuts) - 1): interior boundaries are missed "
+            ctx.report(fg.where, f"cut-loop-range {axis}", f"the {axis}-cut loop does not range over the interior boundaries {axis}_cuts[1:-1]: boundaries are missed "
                        "or the index runs off the list", lineno=fg.node.lineno, iter=show(lp[2])[-120:])
-        v = lp[1]
-        cut = ("s", cuts, v)
+        cut = lp[1]
         conds = atoms_of(lp[3], lambda x: x[0] == "if")
         ctx.site(fg.where, f"{axis}-cut guard: not fixed and {pred}(cut, 1%) ; cut applied with {splitm}(cut)")
         good = False
